@@ -83,7 +83,7 @@ def templates():
     return [os.path.join(d, f) for f in sorted(os.listdir(d)) if f.endswith('.rs.in') or f.endswith('.py')]
 
 
-def generate(config, tag, tier='quick'):
+def generate(config, tag, tier='quick', degrade=None):
     exp, key, cached = expand(config)
     gdir = os.path.join(CACHE, 'gen_%s' % tag)
     os.makedirs(gdir, exist_ok=True)
@@ -102,7 +102,7 @@ def generate(config, tag, tier='quick'):
             raise Undecided(str(e))
         es, ex = {'family': fp}, {'family_defs': defs}
     try:
-        m = gen.generate(exp, templates(), rs, meta, flags, es, ex)
+        m = gen.generate(exp, templates(), rs, meta, flags, es, ex, tag=tag, degrade=degrade)
     except LostAnchor as e:
         raise Undecided('lost anchor: %s' % e)
     except gen.TemplateError as e:
@@ -264,7 +264,11 @@ def _verus_pass(rs, meta, sel, tag, rlimit):
 
 def verus_property_run(prop, config, tag, tier, extra_modules=None):
     """Generate, select modules tagged with `prop`, verify; returns a result dict."""
-    rs, meta = generate(config, tag, tier)
+    return _verus_property_run(prop, config, tag, tier, extra_modules, degrade=set(), depth=0)
+
+
+def _verus_property_run(prop, config, tag, tier, extra_modules, degrade, depth):
+    rs, meta = generate(config, tag, tier, degrade=sorted(degrade))
     mods = sorted(m for m, d in meta['modules'].items() if prop in d['props'])
     lemma_mods = sorted(set(l['module'] for l in meta['lemmas'] if prop in l['props']))
     sel = sorted(set(mods + lemma_mods + [m for m in (extra_modules or []) if m in meta['modules']]))
@@ -293,6 +297,23 @@ def verus_property_run(prop, config, tag, tier, extra_modules=None):
         retried = {'modules': sorted(rl_mods), 'rlimit': rl * 10, 'wall_s': round(res2['wall_s'], 1), 'cmd': res2['cmd']}
         res['wall_s'] += res2['wall_s']
     # rustc type errors (error[E....]) => undecided
+    # a compile (rustc) error inside a function whose module does not serve this property -- typically a hint or a slice
+    # signature that names a local the code no longer has -- stops the whole file: regenerate with that function reduced
+    # to its contract (external_body) and try again; the property that owns the module still reports it as undecided
+    if depth < 3 and not funcs:
+        selset = set(sel)
+        foreign = set()
+        blocking = False
+        for u in undecided:
+            if not (isinstance(u, dict) and u.get('obligation')):
+                continue
+            f_ = [f for f in meta['fns'] if f['id'] == u['obligation']]
+            if f_ and not any(f_[0]['module'] == m or f_[0]['module'].startswith(m + '::') for m in selset) and f_[0]['mode'] == 'verified':
+                foreign.add(u['obligation'])
+            else:
+                blocking = True
+        if foreign and not blocking and not (foreign <= degrade):
+            return _verus_property_run(prop, config, tag, tier, extra_modules, degrade | foreign, depth + 1)
     return {'rs': rs, 'meta': meta, 'modules': sel, 'verus': res, 'funcs': funcs, 'failures': failures,
             'undecided': undecided, 'vr': vr, 'retried': retried}
 
